@@ -11,7 +11,10 @@ for seed, d in sorted(conf.items()):
     if not d['ok']:
         print('NOT CONFIRMED', seed, d['why']); continue
     prop, m = seed.split('-')
-    src = '/tmp/seed/%s/_seed' % prop
+    root = os.environ.get('SEEDROOT', '/tmp/seed')
+    src = '%s/%s/_seed' % (root, prop)
+    tag = os.environ.get('SEEDTAG', '')
+    seed = '%s-%s%s' % (prop, tag, m)
     dst = '/verif/seeded/%s' % seed
     os.makedirs(dst, exist_ok=True)
     shutil.copy('%s/%s.diff' % (src, m), dst + '/patch.diff')
